@@ -249,10 +249,13 @@ Definition cp_locate_p (p : cpack) (i : N) : prog (option (N * N * content_loc))
   if cp_cluster_count (cpk_cp p) <=? cidx then Fail EFormat else
   '(so, _) <~ lift (p_sized_offset (subN (8 * cidx) 8 (cpk_ptrs p))) ;;
   t <~ RdBlock (cpk_base p + so_off so) (so_size so) (fun b => lift (parse_all p_tail b)) ;;
+  (* the stored cluster data lie just before the tail, inside the pack (Cluster::finalize) *)
+  if so_off so <? t_raw t then Fail EFormat else
   let j := N.to_nat bidx in
   if (length (t_offs t) <=? S j)%nat then Fail EFormat else
   let o := nth j (t_offs t) 0 in
   let e := nth (S j) (t_offs t) 0 in
+  if e <? o then Fail EFormat else                        (* blob offsets must not decrease (get_bytes) *)
   let data_start := cpk_base p + so_off so - t_raw t in
   if t_comp t =? 0 then Ret (Some (cidx, bidx, CRaw (data_start + o) (e - o)))
   else Ret (Some (cidx, bidx, CComp (t_comp t) data_start (t_raw t) (t_dsize t) o (e - o))).
